@@ -30,7 +30,7 @@ m = {
     "engines": [{"name": "rapid-harness", "path": "/verif/harness", "serves_properties": [c["property_id"] for c in checks],
                  "kind_free_text": "Go test packages (one per property) using pgregory.net/rapid v1.3.0 generators with shrinking, plain enumerations for exhaustive sub-domains and native go fuzzing for byte-level targets; driver /verif/check"}],
     "checks": checks,
-    "notes": "Every check builds harness/<id> against /repo's working tree (replace directive) with -tags verif. VERIF_SEED selects the rapid seed (0/unset -> 20260924). Exit 2 = inconclusive/infrastructure. Known findings: /verif/known_findings.jsonl.",
+    "notes": "Every check builds harness/<id> against /repo's working tree (replace directive) with -tags verif. VERIF_SEED selects the rapid seed (0/unset -> 20260924). Exit 2 = inconclusive/infrastructure. Known findings: /verif/known_findings.txt.",
     "not_applicable": na,
 }
 json.dump(m, open(os.path.join(V, "MANIFEST.json"), "w"), indent=1)
